@@ -132,6 +132,16 @@ def handle (kind : String) (args : List String) (impl : String) : String :=
           else ""
         let ss := if sp == "" then "" else s!"SPEC {sp} impl={impl}"
         if d == "" && ss == "" then "ok" else d ++ (if d != "" && ss != "" then " ; " else "") ++ ss
+  | "c09.table", _ =>
+    -- `Props.C09t.stop_leaves_nothing_running`: whatever the history of requests, replacements, lost connections and late removals,
+    -- Stop closes every connection that was made
+    let up := (field impl "up").splitOn "/"
+    let sp :=
+      if field impl "stop" != "ok" then "stop-does-not-return"
+      else if up.getD 0 "a" != up.getD 1 "b" then "upstream-connection-left-open-after-stop"
+      else if field impl "leaked" != "0" then "goroutines-left-after-stop"
+      else ""
+    if sp == "" then "ok" else s!"SPEC {sp} impl={impl}"
   | "c09.replace", [] =>
     -- `Props.C09t.stop_leaves_nothing_running`: whatever connections were made while the host list was being replaced, Stop closes them all
     let up := (field impl "up").splitOn "/"
